@@ -6,6 +6,7 @@ CONSTANTS Coef <- C3
  MaxD = 3
  MaxSteps = 3
  SubA <- A3
+ LimC <- L2
  SubB <- S2
 INVARIANT SameValueInv
 INVARIANT SameValueOp
